@@ -21,6 +21,14 @@ type State struct {
 	heap  *Heap
 	ghost map[string]*Term
 	regs  map[ssa.Value]Value
+	gbase string // suffix for ghost variables not touched since the last total havoc
+}
+
+func (s *State) ghostSuffix() string {
+	if s.gbase == "" {
+		return "$0"
+	}
+	return s.gbase
 }
 
 func (x *FnCtx) setReg(st *State, v ssa.Value, val Value) {
@@ -31,7 +39,7 @@ func (x *FnCtx) setReg(st *State, v ssa.Value, val Value) {
 }
 
 func (s *State) Clone() *State {
-	n := &State{pc: s.pc, cells: make(map[*ssa.Alloc]Value, len(s.cells)), heap: s.heap.Clone(), ghost: map[string]*Term{}, regs: make(map[ssa.Value]Value, len(s.regs))}
+	n := &State{pc: s.pc, cells: make(map[*ssa.Alloc]Value, len(s.cells)), heap: s.heap.Clone(), ghost: map[string]*Term{}, regs: make(map[ssa.Value]Value, len(s.regs)), gbase: s.gbase}
 	for k, v := range s.cells {
 		n.cells[k] = v
 	}
@@ -92,6 +100,7 @@ type FnCtx struct {
 	usedInlined map[string]bool
 	hasUnknownCall bool
 	lastEvalErr string
+	ghostSorts map[string]*Sort
 	inInit bool
 }
 
@@ -453,8 +462,12 @@ func (x *FnCtx) ghostGet(st *State, name string, s *Sort) *Term {
 	if t, ok := st.ghost[name]; ok {
 		return t
 	}
-	t := x.tb.Var(name+"$0", s)
+	t := x.tb.Var(name+st.ghostSuffix(), s)
 	st.ghost[name] = t
+	if x.ghostSorts == nil {
+		x.ghostSorts = map[string]*Sort{}
+	}
+	x.ghostSorts[name] = s
 	return t
 }
 
@@ -781,10 +794,27 @@ func valueEq(a, b Value) bool {
 
 func (x *FnCtx) mergeHeaps(conds []*Term, hs []*Heap) *Heap {
 	tb := x.tb
-	out := &Heap{m: map[string]*Term{}}
+	out := &Heap{m: map[string]*Term{}, base: hs[len(hs)-1].base}
+	for _, h := range hs {
+		if h.base != out.base {
+			out.base = fmt.Sprintf("$m%d", x.tb.nextID())
+			break
+		}
+	}
 	names := map[string]bool{}
 	for _, h := range hs {
 		for k := range h.m {
+			names[k] = true
+		}
+	}
+	differ := false
+	for _, h := range hs {
+		if h.base != hs[0].base {
+			differ = true
+		}
+	}
+	if differ {
+		for k := range x.heapSorts {
 			names[k] = true
 		}
 	}
@@ -793,7 +823,7 @@ func (x *FnCtx) mergeHeaps(conds []*Term, hs []*Heap) *Heap {
 		for i := len(hs) - 1; i >= 0; i-- {
 			t, ok := hs[i].m[k]
 			if !ok {
-				t = x.tb.Var(k+"$0", x.heapSorts[k])
+				t = x.tb.Var(k+hs[i].baseSuffix(), x.heapSorts[k])
 			}
 			if r == nil {
 				r = t
@@ -862,7 +892,7 @@ func (x *FnCtx) mergeStates(es []edge) *State {
 						s = tt.Sort
 					}
 				}
-				t = x.tb.Var(k+"$0", s)
+				t = x.tb.Var(k+es[i].st.ghostSuffix(), s)
 			}
 			if r == nil {
 				r = t
@@ -871,6 +901,32 @@ func (x *FnCtx) mergeStates(es []edge) *State {
 			}
 		}
 		out.ghost[k] = r
+	}
+	out.gbase = es[len(es)-1].st.gbase
+	for _, e := range es {
+		if e.st.gbase != out.gbase {
+			// different histories: materialise every declared ghost variable in the merge
+			out.gbase = fmt.Sprintf("$m%d", x.tb.nextID())
+			for gk := range x.ghostSorts {
+				if _, done := out.ghost[gk]; done {
+					continue
+				}
+				var r *Term
+				for i := len(es) - 1; i >= 0; i-- {
+					t, ok := es[i].st.ghost[gk]
+					if !ok {
+						t = x.tb.Var(gk+es[i].st.ghostSuffix(), x.ghostSorts[gk])
+					}
+					if r == nil {
+						r = t
+					} else {
+						r = x.tb.Ite(es[i].st.pc, t, r)
+					}
+				}
+				out.ghost[gk] = r
+			}
+			break
+		}
 	}
 	return out
 }
